@@ -446,6 +446,8 @@ def r3_exit_status_tables(w):
                     descs = sorted({v.describe(o) for o in ors})
                     cons = {'fn': fb.short, 'returns': 'Ok(status)', 'status_from': descs}
                     bad = [d for d in descs if not (d.startswith('agg:typstyle::fmt::FormatStatus::') or d.startswith('call:typstyle::'))]
+                    if bad == ['cycle'] and len(descs) > 1:
+                        bad = []       # the loop-carried value of an accumulator (a fold state): judged through its other definitions
                     if bad:
                         r.bad(cons, '%s|status-origin' % fb.short, 'status returned by %s has provenance %s' % (fb.short, bad), fb.loc(s['span']))
                     else:
